@@ -111,9 +111,12 @@ class Worker:
         wall-clock backstop is executed once more in a fresh worker with ten times the backstop before it counts as a
         hang, so that a loaded machine cannot change a verdict (the backstop is 10^4 times the normal cost of a job)."""
         result = self.run_once(job, timeout)
-        if result.get("crash") == "timeout":
+        if result.get("crash") == "timeout" and not getattr(self, "hang_confirmed", False):
             self.timeouts_retried = getattr(self, "timeouts_retried", 0) + 1
             result = self.run_once(job, timeout * 10)
+            if result.get("crash") == "timeout":
+                # a real hang on this tree: later timeouts of this worker are not given the long backstop again
+                self.hang_confirmed = True
         return result
 
     def run_once(self, job, timeout):
